@@ -65,7 +65,7 @@ func createNewDir(rawNewDir string, targetLdr ifc.Loader, spec *git.RepoSpec, fS
 	}
 	newDir, err := filesys.ConfirmDir(fSys, rawNewDir)
 	if err != nil {
-		if errCleanup := fSys.RemoveAll(newDir.String()); errCleanup != nil {
+		if errCleanup := fSys.RemoveAll(rawNewDir); errCleanup != nil {
 			log.Printf("%s", errors.WrapPrefixf(errCleanup, "unable to clean localize destination"))
 		}
 		return "", errors.WrapPrefixf(err, "unable to establish localize destination")
